@@ -87,4 +87,13 @@ theorem ups_process_args_src :
 /-! DoH GET: the parameter is decoded into a fresh slice. -/
 theorem doh_get_decode_src : doh_get_decode = "b64[0]" := by decide
 
+/-! Round 4.  UDP control data (`recvOOB`): the pooled buffer is what `ReadMsgUDP` writes into, only
+`oob[:oobn]` is parsed, the session is a new struct per datagram.  Buffer sizes of the plain-DNS
+servers when the builder (`dnssvc.NewListener`) sets none: 512 (`Cfg.prod`). -/
+theorem oob_parse_arg_src : oob_parse_arg = "oob[:oobn]" := by decide
+theorem oob_read_args_src : oob_read_args = "b, oob" := by decide
+theorem oob_session_fresh_src : oob_session_fresh = "&packetSession{}" := by decide
+theorem dns_default_udp_size_src : dns_default_udp_size = "cmp.Or(conf.UDPSize, dns.MinMsgSize)" := by decide
+theorem dns_default_tcp_size_src : dns_default_tcp_size = "cmp.Or(conf.TCPSize, dns.MinMsgSize)" := by decide
+
 end Agd.Tie.C06
